@@ -3,6 +3,9 @@
 Scenario IR
     start: {"kind": "empty"} or {"kind": "doc", "fmt": "xmi"|"json", "form": "list"|"dict", "sofas": [{id,num,name}...] (document
            order), "fs": [{l,id,member (view name|None),ref (label|None)}...] (document order), "perm": seed for the element order}
+           an entry of "fs" with "kind": "B" is a uima.cas.ByteArray (its single byte is the label) and "arr": [sofa names] says
+           which sofas hold it as their data (sofaArray; such a sofa has no sofaString).  It is an FS like the others: member
+           of a view and / or the `ref` of a t.A; every operation may name its label.
     ops:   new{l,preset?} add{l,keep (true|false|null = argument omitted),view} add_all{ls,view} link{p,c}
            view{name,xid?,num?}   xid / num = {mode,arg}: create_view(name, xmiID=.., sofaNum=..) with a value chosen by the
                                   caller that is not in use: mode above (beyond every value in use, gap arg % 3) | free (an
@@ -11,10 +14,12 @@ Scenario IR
            every op may carry "h": the operation is issued through the live handle number h mod (number of handles); handles are
            the root Cas, every Cas returned by create_view and by get_view (also after a reload). The model has one shared store.
 The documents are written here as text (never by cassis) and parsed back with xml.etree / json only.
-Every FS is a t.A annotation with begin = label, so the traversal order of Cas._find_all_fs is tie-free and is computed by
-`Sim` (views in creation order, members by begin, then breadth-first through `ref`); it is handed to the model as the order
-parameter of OpSave / OpReload.
+Every other FS is a t.A annotation with begin = label and the index of a view holds at most one byte array, so the
+traversal order of Cas._find_all_fs is tie-free and is computed by `Sim` (views in creation order, in a view type after
+type in the order of their first add, members by begin, then breadth-first through `ref`); it is handed to the model as
+the order parameter of OpSave / OpReload.
 """
+import base64
 import json
 import xml.etree.ElementTree as ET
 
@@ -29,7 +34,10 @@ ENTRY = ("cassis.cas.IdGenerator / Cas.add / Cas.create_view / Cas._find_all_fs;
 RULE = (
     "start: Cas() (1 in 5) or a hand-written XMI or JSON document (list or dict form) with 1-3 sofas, ids drawn without "
     "repetition from 1..40 in shuffled element order, the largest id on a sofa in 2 of 5 documents, sofaNums with gaps and swaps "
-    "(_InitialView rarely 1), 0-5 FS that are view members or only referenced; then a history of <= 12 operations over new "
+    "(_InitialView rarely 1), 0-5 FS that are view members or only referenced; 35 in 100 documents also carry one or two "
+    "uima.cas.ByteArray FS which are the data (sofaArray) of one or two sofas (9 in 10; one array shared by two sofas 1 in 4) "
+    "and at the same time a member of a view or the reference of a member, 15 in 100 operations of such a history name a byte "
+    "array (add, add_all, keep_id=False, force, link target); then a history of <= 12 operations over new "
     "(optionally with a preset id), every operation issued through a random live handle (root, create_view and get_view results), add (keep_id True / False / omitted), add_all, link, create_view (incl. an existing name), "
     "create_view with an xmi:id and / or a sofaNum chosen by the caller (about 4 in 10 create_view calls; a value not in use, "
     "ahead of the generator with a gap of 0-2 or an unused one below it; 1 scenario in 4 issues create_view more often), "
@@ -43,6 +51,9 @@ TRUSTED = [
     "actual order for tie-free scenarios (harness/props/C09.py Sim.order) and the set of reachable FS is computed by the model",
     "correspondence harness: harness/props/C09.py writes the documents by hand, drives the public API, parses output with xml.etree/json",
     "XMI and JSON readers share one model function (load_doc); the format is not an input of the model",
+    "a byte array which is the data of a sofa is an ordinary FS of the model (label, id, member, no reference): the scenarios keep "
+    "it reachable from the indexes, so the sofa's own reference adds nothing to the set Cas._find_all_fs returns; that the sofa, "
+    "the indexes and the referring FS hold one and the same object is observed by the driver (object identity) and judged by the oracle",
     "the model is one shared store: that all view handles (Cas._copy) share both generators, the sofas and the views is carried by "
     "the correspondence only (every operation is issued through a randomly chosen live handle), not by a theorem",
 ]
@@ -54,6 +65,9 @@ ASSUMPTIONS = [
     "an xmi:id / sofaNum passed to create_view is not in use at that moment (not the id of a sofa or of an FS of the CAS or of "
     "the loaded document, not the sofaNum of a sofa); create_view does not check this (Props/C09.v C09_chosen_values_unchecked)",
     "all handles of one CAS (root, create_view / get_view results) share the id generator and the sofaNum generator",
+    "a byte array which is the data of a sofa is also a member of a view or referenced by a member whose reference is not changed "
+    "afterwards (a byte array held by a sofa alone is appended by the writers outside Cas._find_all_fs and its duplicate test); "
+    "the index of one view holds at most one byte array (two would be ordered by memory address)",
 ]
 CASES_PER_SHARD = 150
 SHARD_BYTES = 180_000
@@ -80,27 +94,48 @@ def _ts(cassis):
 # ------------------------------------------------------------------------------------------------ scenario bookkeeping
 
 
+def _members(start, s):
+    """the FS of the document which are members of the view of sofa s, in the order the document lists them"""
+    return [f for f in _shuffled(start["fs"], start["perm"] + s["id"]) if f["member"] == s["name"]]
+
+
 class Sim:
-    """What exists according to the scenario alone: views in creation order, labels, view membership, ref links."""
+    """What exists according to the scenario alone: views in creation order, labels, view membership, ref links, which
+    FS are byte arrays (kind B) and which sofas hold them as their data, and - for the traversal order - the order in
+    which the types first entered the index of every view (View.get_all_annotations lists type after type)."""
 
     def __init__(self, start):
         self.views = [INIT]
-        self.fs = {}  # label -> {"views": [names], "ref": label|None}
+        self.fs = {}  # label -> {"views": [names], "ref": label|None, "kind": "A"|"B", "arr": [sofa names]}
+        self.groups = {}  # view -> kinds in the order of their first add to that view
         if start["kind"] == "doc":
             for s in start["sofas"]:
                 if s["name"] != INIT:
                     self.views.append(s["name"])
             for f in start["fs"]:
-                self.fs[f["l"]] = {"views": [f["member"]] if f["member"] else [], "ref": f["ref"]}
+                self.fs[f["l"]] = {"views": [f["member"]] if f["member"] else [], "ref": f["ref"],
+                                   "kind": f.get("kind", "A"), "arr": list(f.get("arr", []))}
+            for s in start["sofas"]:
+                for f in _members(start, s):
+                    self._group(s["name"], f.get("kind", "A"))
             self.prune()
+
+    def _group(self, view, kind):
+        g = self.groups.setdefault(view, [])
+        if kind not in g:
+            g.append(kind)
+
+    def kind(self, l):
+        return self.fs[l]["kind"] if l in self.fs else "A"
 
     def reachable(self):
         out, seen = [], set()
         for v in self.views:
-            for l in sorted(l for l, f in self.fs.items() if v in f["views"]):
-                if l not in seen:
-                    seen.add(l)
-                    out.append(l)
+            for kind in self.groups.get(v, []) + [k for k in ("A", "B") if k not in self.groups.get(v, [])]:
+                for l in sorted(l for l, f in self.fs.items() if v in f["views"] and f["kind"] == kind):
+                    if l not in seen:
+                        seen.add(l)
+                        out.append(l)
         i = 0
         while i < len(out):
             c = self.fs[out[i]]["ref"]
@@ -110,7 +145,7 @@ class Sim:
             i += 1
         return out
 
-    order = reachable  # breadth-first order of _find_all_fs when begin == label
+    order = reachable  # breadth-first order of _find_all_fs when begin == label and a view indexes at most one byte array
 
     def reaches(self, a, b):
         """b is a or is reached from a through ref links"""
@@ -122,25 +157,61 @@ class Sim:
             a = self.fs[a]["ref"]
         return False
 
-    def prune(self):
+    def prune(self, ids=None):
+        """what a reload keeps; `ids` (label -> id written) gives the order in which the reader fills the indexes"""
         keep = set(self.reachable())
         self.fs = {l: f for l, f in self.fs.items() if l in keep}
+        if ids is not None:
+            self.groups = {}
+            for v in self.views:
+                for l in sorted((l for l, f in self.fs.items() if v in f["views"]), key=lambda l: ids.get(l, 0)):
+                    self._group(v, self.fs[l]["kind"])
+
+    # Preconditions kept by construction (operations outside them are skipped, by the driver and here alike):
+    #  - the index of a view holds at most one byte array (two would be ordered by their memory addresses);
+    #  - a byte array which is the data of a sofa stays reachable from the indexes: the reference of an FS which points
+    #    to such a byte array is not changed (what only a sofa holds is written outside Cas._find_all_fs).
+    def add_ok(self, l, view):
+        if l not in self.fs or view not in self.views:
+            return False
+        if self.fs[l]["kind"] == "B":
+            return not any(f["kind"] == "B" and view in f["views"] and k != l for k, f in self.fs.items())
+        return True
+
+    def addable(self, ls, view):
+        """the labels of ls which add_all may add to view, one after the other"""
+        out, has_b = [], [k for k, f in self.fs.items() if f["kind"] == "B" and view in f["views"]]
+        for l in ls:
+            if l not in self.fs or view not in self.views:
+                continue
+            if self.fs[l]["kind"] == "B":
+                if has_b and has_b != [l]:
+                    continue
+                has_b = [l]
+            out.append(l)
+        return out
+
+    def link_ok(self, p, c):
+        if p not in self.fs or c not in self.fs or self.fs[p]["kind"] != "A":
+            return False
+        t = self.fs[p]["ref"]
+        return not (t is not None and t in self.fs and self.fs[t]["kind"] == "B" and self.fs[t]["arr"])
 
     def apply(self, op):
         k = op["op"]
         if k == "new":
             if op["l"] not in self.fs:
-                self.fs[op["l"]] = {"views": [], "ref": None}
+                self.fs[op["l"]] = {"views": [], "ref": None, "kind": "A", "arr": []}
         elif k == "add":
-            if op["l"] in self.fs and op["view"] in self.views:
+            if self.add_ok(op["l"], op["view"]):
                 self.fs[op["l"]]["views"].append(op["view"])
+                self._group(op["view"], self.fs[op["l"]]["kind"])
         elif k == "add_all":
-            if op["view"] in self.views:
-                for l in op["ls"]:
-                    if l in self.fs:
-                        self.fs[l]["views"].append(op["view"])
+            for l in self.addable(op["ls"], op["view"]):
+                self.fs[l]["views"].append(op["view"])
+                self._group(op["view"], self.fs[l]["kind"])
         elif k == "link":
-            if op["p"] in self.fs and op["c"] in self.fs:
+            if self.link_ok(op["p"], op["c"]):
                 self.fs[op["p"]]["ref"] = op["c"]
         elif k == "view":
             if op["name"] not in self.views:
@@ -167,19 +238,26 @@ def doc_text(start):
     def fs_sofa(f):
         return sid[f["member"]] if f["member"] else sid.get(INIT, sid[first])
 
+    # the byte array which is the data of a sofa: such a sofa has no text
+    arr = {n: f["id"] for f in fss for n in f.get("arr", [])}
+
     if start["fmt"] == "xmi":
         # Sofa elements stay in the order of start["sofas"] among themselves (that order is the order of cas.sofas)
         elems = []
         for f in fss:
+            if f.get("kind") == "B":
+                elems.append(("x", f'<cas:ByteArray xmi:id="{f["id"]}" elements="{f["l"]:02X}"/>'))
+                continue
             ref = f' ref="{idof[f["ref"]]}"' if f["ref"] is not None else ""
             elems.append(("x", f'<t:A xmi:id="{f["id"]}" sofa="{fs_sofa(f)}" begin="{f["l"]}" end="{f["l"] + 1}" lab="{f["l"]}"{ref}/>'))
         for s in sofas:
-            mem = [str(f["id"]) for f in _shuffled(fss, start["perm"] + s["id"]) if f["member"] == s["name"]]
+            mem = [str(f["id"]) for f in _members(start, s)]
             if mem or (start["perm"] + s["id"]) % 3:
                 elems.append(("x", f'<cas:View sofa="{s["id"]}" members="{" ".join(mem)}"/>'))
         elems = _shuffled(elems, start["perm"])
-        sof = [f'<cas:Sofa xmi:id="{s["id"]}" sofaNum="{s["num"]}" sofaID="{s["name"]}" mimeType="text/plain" sofaString="{TEXT}"/>'
-               for s in sofas]
+        sof = [f'<cas:Sofa xmi:id="{s["id"]}" sofaNum="{s["num"]}" sofaID="{s["name"]}" '
+               + (f'mimeType="application/octet-stream" sofaArray="{arr[s["name"]]}"/>' if s["name"] in arr
+                  else f'mimeType="text/plain" sofaString="{TEXT}"/>') for s in sofas]
         # interleave sofas at pseudo-random positions, keeping their relative order
         import random
         r = random.Random(start["perm"] * 7 + 1)
@@ -197,6 +275,9 @@ def doc_text(start):
                 + "\n".join(out) + "\n</xmi:XMI>\n")
     recs = []
     for f in fss:
+        if f.get("kind") == "B":
+            recs.append({"%ID": f["id"], "%TYPE": "uima.cas.ByteArray", "%ELEMENTS": base64.b64encode(bytes([f["l"]])).decode()})
+            continue
         d = {"%ID": f["id"], "%TYPE": "t.A", "@sofa": fs_sofa(f), "begin": f["l"], "end": f["l"] + 1, "lab": f["l"]}
         if f["ref"] is not None:
             d["@ref"] = idof[f["ref"]]
@@ -209,14 +290,18 @@ def doc_text(start):
     for i in range(len(recs) + 1):
         while j < len(sofas) and pos[j] == i:
             s = sofas[j]
-            out.append({"%ID": s["id"], "%TYPE": "uima.cas.Sofa", "sofaNum": s["num"], "sofaID": s["name"],
-                        "mimeType": "text/plain", "sofaString": TEXT})
+            if s["name"] in arr:
+                out.append({"%ID": s["id"], "%TYPE": "uima.cas.Sofa", "sofaNum": s["num"], "sofaID": s["name"],
+                            "mimeType": "application/octet-stream", "@sofaArray": arr[s["name"]]})
+            else:
+                out.append({"%ID": s["id"], "%TYPE": "uima.cas.Sofa", "sofaNum": s["num"], "sofaID": s["name"],
+                            "mimeType": "text/plain", "sofaString": TEXT})
             j += 1
         if i < len(recs):
             out.append(recs[i])
     views = {}
     for s in _shuffled(sofas, start["perm"] + 3):
-        mem = [f["id"] for f in _shuffled(fss, start["perm"] + s["id"]) if f["member"] == s["name"]]
+        mem = [f["id"] for f in _members(start, s)]
         views[s["name"]] = {"%SOFA": s["id"], "%MEMBERS": mem}
     if start.get("form") == "dict":
         body = {}
@@ -229,8 +314,9 @@ def doc_text(start):
 
 
 def parse_doc(fmt, text):
-    """-> (sorted [(id, label)], [(id, num, name)] in document order); stdlib parsers only."""
-    fs, sofas = [], []
+    """-> (sorted [(id, label)], [(id, num, name)] in document order, sorted [(sofa name, id its sofaArray refers to)]);
+    stdlib parsers only.  The label of a byte array is its first byte."""
+    fs, sofas, arrs = [], [], []
     if fmt == "xmi":
         root = ET.fromstring(text.encode("utf-8"))
         XMI = "{http://www.omg.org/XMI}id"
@@ -240,6 +326,10 @@ def parse_doc(fmt, text):
                 continue
             if tag == "{http:///uima/cas.ecore}Sofa":
                 sofas.append([int(e.attrib[XMI]), int(e.attrib["sofaNum"]), e.attrib["sofaID"]])
+                if "sofaArray" in e.attrib:
+                    arrs.append([e.attrib["sofaID"], int(e.attrib["sofaArray"])])
+            elif tag == "{http:///uima/cas.ecore}ByteArray":
+                fs.append([int(e.attrib[XMI]), int(e.attrib["elements"][:2], 16)])
             else:
                 fs.append([int(e.attrib[XMI]), int(e.attrib.get("lab", "-1"))])
     else:
@@ -249,31 +339,53 @@ def parse_doc(fmt, text):
         for i, d in items:
             if d["%TYPE"] == "uima.cas.Sofa":
                 sofas.append([int(i), int(d["sofaNum"]), d["sofaID"]])
+                if d.get("@sofaArray") is not None:
+                    arrs.append([d["sofaID"], int(d["@sofaArray"])])
+            elif d["%TYPE"] == "uima.cas.ByteArray":
+                fs.append([int(i), base64.b64decode(d["%ELEMENTS"])[0]])
             else:
                 fs.append([int(i), int(d.get("lab", -1))])
-    return sorted(fs), sofas
+    return sorted(fs), sofas, sorted(arrs)
 
 
 # ------------------------------------------------------------------------------------------------ implementation driver
 
 
+def _label(fs):
+    return list(fs.elements)[0] if fs.type.name == "uima.cas.ByteArray" else fs.lab
+
+
 def _handles(cas):
-    """label -> FS object, found through the public view API and the ref feature."""
-    out, todo = {}, []
+    """label -> FS object, found through the public view API, the ref feature and the data arrays of the sofas; and
+    label -> ids of the objects, for every label which two or more distinct objects of the CAS carry."""
+    out, twins, seen, todo = {}, {}, set(), []
+    for s in cas.sofas:
+        todo.append(s.sofaArray)
     for v in cas.views:
         todo.extend(v.get_all_annotations())
     while todo:
         fs = todo.pop()
-        if fs is None or fs.lab in out:
+        if fs is None or id(fs) in seen:
             continue
-        out[fs.lab] = fs
+        seen.add(id(fs))
+        l = _label(fs)
+        if l in out:
+            twins.setdefault(l, [out[l].xmiID]).append(fs.xmiID)
+        else:
+            out[l] = fs
         todo.append(getattr(fs, "ref", None))
-    return out
+    return out, twins
 
 
 def _snap(cas, objs):
-    return {"snap": sorted([l, fs.xmiID] for l, fs in objs.items()),
-            "sofas": [[s.xmiID, s.sofaNum, s.sofaID] for s in cas.sofas]}
+    e = {"snap": sorted([l, fs.xmiID] for l, fs in objs.items()),
+         "sofas": [[s.xmiID, s.sofaNum, s.sofaID] for s in cas.sofas]}
+    # the data array of every sofa which has one: its label, and whether it is the very object known under that label
+    arr = sorted([s.sofaID, _label(s.sofaArray), objs.get(_label(s.sofaArray)) is s.sofaArray]
+                 for s in cas.sofas if s.sofaArray is not None)
+    if arr:
+        e["arr"] = arr
+    return e
 
 
 def _force_value(op, cas, objs):
@@ -322,8 +434,10 @@ def run_impl(cassis, sc):
     else:
         cas = Cas(typesystem=ts)
     sim = Sim(start)
-    objs = _handles(cas)
+    objs, twins = _handles(cas)
     first = _snap(cas, objs)
+    if twins:
+        first["twins"] = sorted([l, sorted(i for i in x if i is not None)] for l, x in twins.items())
     steps = []
     docids = _doc_ids(start)  # ids of the document the CAS was last loaded from (FS that were not reachable included)
     # live handles: the root and view handles obtained from it; later every Cas returned by create_view / get_view
@@ -373,7 +487,7 @@ def run_impl(cassis, sc):
                 emit(["new", l], None)
         elif k == "add":
             fs = objs.get(op["l"])
-            if fs is not None and op["view"] in sim.views:
+            if fs is not None and sim.add_ok(op["l"], op["view"]):
                 v = via(op).get_view(op["view"])
                 remember(v)
                 if op["keep"] is None:
@@ -385,7 +499,7 @@ def run_impl(cassis, sc):
                 emit(["nop"], None)
         elif k == "add_all":
             if op["view"] in sim.views:
-                ls = [l for l in op["ls"] if l in objs]
+                ls = [l for l in sim.addable(op["ls"], op["view"]) if l in objs]
                 v = via(op).get_view(op["view"])
                 remember(v)
                 v.add_all([objs[l] for l in ls])
@@ -393,9 +507,12 @@ def run_impl(cassis, sc):
             else:
                 emit(["nop"], None)
         elif k == "link":
-            if op["p"] in objs and op["c"] in objs:
-                objs[op["p"]].ref = objs[op["c"]]
-            emit(["link", op["p"], op["c"]], None)
+            if op["p"] in objs and op["c"] in objs and not sim.link_ok(op["p"], op["c"]):
+                emit(["nop"], None)  # a byte array has no reference; the reference to the data of a sofa stays
+            else:
+                if op["p"] in objs and op["c"] in objs:
+                    objs[op["p"]].ref = objs[op["c"]]
+                emit(["link", op["p"], op["c"]], None)
         elif k == "view":
             kw, mop = {}, ["view", op["name"]]
             if op.get("xid") or op.get("num"):
@@ -426,19 +543,24 @@ def run_impl(cassis, sc):
                 emit([k, order], {"err": "EDupId"})
                 sim.apply(op)
                 continue
-            fs_ids, sofas = parse_doc(op["fmt"], text)
+            fs_ids, sofas, arrs = parse_doc(op["fmt"], text)
+            doc = {"fs": fs_ids, "sofas": sofas}
+            if arrs:
+                doc["arr"] = arrs
             if k == "reload" and {i for i, _l in fs_ids} & {x[0] for x in sofas}:
                 # the document carries an FS and a sofa under one id: the oracle reports it; reading such a document back is
                 # not attempted (the JSON reader keys sofas and FS in one dict), the history ends here as a plain save
-                emit(["save", order], {"fs": fs_ids, "sofas": sofas})
+                emit(["save", order], doc)
                 break
             if k == "reload":
                 cas = load[op["fmt"]](text, typesystem=ts)
                 docids = {i for i, _l in fs_ids} | {x[0] for x in sofas}
-                sim.prune()
-                objs = _handles(cas)
+                sim.prune({l: i for i, l in fs_ids})
+                objs, twins = _handles(cas)
                 handles = [cas] + [cas.get_view(n) for n in sim.views]
-            emit([k, order], {"fs": fs_ids, "sofas": sofas})
+            emit([k, order], doc)
+            if k == "reload" and twins:
+                steps[-1]["twins"] = sorted([l, sorted(i for i in x if i is not None)] for l, x in twins.items())
         else:
             raise AssertionError(k)
         sim.apply(op)
@@ -473,6 +595,15 @@ def oracle(cassis, sc, obs):
     sofa_const = {}
 
     def check_snapshot(tag, e):
+        if e.get("twins"):
+            l, ids = e["twins"][0]
+            return f"{tag}: FS {l} exists as {max(2, len(ids))} distinct objects of the CAS, which carry xmi:id {ids}"
+        for name, l, same in e.get("arr", []):
+            if not same:
+                return f"{tag}: the data of sofa {name} (byte array {l}) is another object than the FS {l} held by the indexes"
+        want = sorted([n, l] for l, f in sim.fs.items() for n in f["arr"])
+        if [x[:2] for x in e.get("arr", [])] != want:
+            return f"{tag}: sofas hold the byte arrays {[x[:2] for x in e.get('arr', [])]}, the document said {want}"
         sid = [s[0] for s in e["sofas"]]
         nums = [s[1] for s in e["sofas"]]
         if _dups(nums):
@@ -595,6 +726,12 @@ def oracle(cassis, sc, obs):
                     return f"{tag}: document uses id {both[0]} for a sofa and for FS {who}, whose id was generated or loaded"
                 if sorted(l for _i, l in doc_fs) != sorted(reach):
                     return f"{tag}: document holds FS {sorted(l for _i, l in doc_fs)}, reachable are {sorted(reach)}"
+                want = sorted([n, l] for l, f in sim.fs.items() for n in f["arr"])
+                if [n for n, _i in o.get("arr", [])] != [n for n, _l in want]:
+                    return f"{tag}: document gives data arrays to the sofas {o.get('arr', [])}, the CAS to {want}"
+                for (name, i), (_n, l) in zip(o.get("arr", []), want):
+                    if [i, l] not in doc_fs:
+                        return f"{tag}: sofa {name} refers to id {i} as its data, byte array {l} is written as {[x for x, y in doc_fs if y == l]}"
                 if doc_sofas != prev["sofas"]:
                     return f"{tag}: document sofas {doc_sofas} differ from the sofas of the CAS {prev['sofas']}"
                 for i, l in doc_fs:
@@ -804,6 +941,80 @@ def gen_scenario(rng, tier):
     return {"start": start, "ops": ops}
 
 
+def _start_ok(start):
+    """the byte array which is the data of a sofa is a member of a view, or referenced by a member (see Sim)"""
+    if start["kind"] != "doc":
+        return True
+    names = {s["name"] for s in start["sofas"]}
+    for f in start["fs"]:
+        if f.get("kind") == "B":
+            if not set(f.get("arr", [])) <= names:
+                return False
+            if f.get("arr") and not f["member"] and not any(g["member"] and g["ref"] == f["l"] for g in start["fs"]):
+                return False
+    for s in start["sofas"]:
+        if sum(1 for f in start["fs"] if f.get("kind") == "B" and f["member"] == s["name"]) > 1:
+            return False
+    return True
+
+
+def _with_arrays(sc):
+    """Some documents get one or two uima.cas.ByteArray FS (labels 6, 7): the data of one or two sofas (sofaArray; such
+    a sofa has no sofaString), and at the same time a member of a view or the `ref` of a member; some operations of the
+    history are redirected to them.  Drawn from a stream of its own (seeded by the document), so everything else in the
+    scenario is what it was without byte arrays."""
+    import random
+    start = sc["start"]
+    if start["kind"] != "doc":
+        return sc
+    r = random.Random(start["perm"] ^ 0x5A17)
+    if r.random() >= 0.35:
+        return sc
+    names = [s["name"] for s in start["sofas"]]
+    used = {s["id"] for s in start["sofas"]} | {f["id"] for f in start["fs"]}
+    labels = []
+    free_views = list(names)
+    free_sofas = list(names)
+    for l in ((6, 7) if len(names) > 1 and r.random() < 0.25 else (6,)):
+        free = [k for k in range(1, max(used) + 4) if k not in used]
+        b = {"l": l, "id": r.choice(free), "member": None, "ref": None, "kind": "B", "arr": []}
+        used.add(b["id"])
+        if r.random() < 0.9 and free_sofas:
+            holders = r.sample(free_sofas, 2 if len(free_sofas) > 1 and r.random() < 0.25 else 1)
+            b["arr"] = holders
+            for n in holders:
+                free_sofas.remove(n)
+        referrers = [f for f in start["fs"] if f.get("kind") != "B" and f["member"] and f["ref"] is None]
+        if referrers and r.random() < 0.35:
+            r.choice(referrers)["ref"] = l
+        else:
+            # member of the view whose sofa holds it (2 in 3) or of another one
+            own = [n for n in b["arr"] if n in free_views]
+            b["member"] = r.choice(own) if own and r.random() < 0.67 else r.choice(free_views)
+            free_views.remove(b["member"])
+            if referrers and r.random() < 0.3:
+                r.choice(referrers)["ref"] = l
+        start["fs"].insert(r.randint(0, len(start["fs"])), b)
+        labels.append(l)
+    for op in sc["ops"]:
+        if r.random() >= 0.15:
+            continue
+        l = r.choice(labels)
+        if op["op"] in ("add", "force"):
+            if op["op"] == "force" and op["mode"] == "as" and r.random() < 0.5:
+                op["arg"] = l
+            else:
+                op["l"] = l
+        elif op["op"] == "add_all":
+            op["ls"] = op["ls"] + [l]
+        elif op["op"] == "link":
+            op["c"] = l
+        elif op["op"] == "new" and op.get("preset", {}).get("mode") == "as":
+            op["preset"]["arg"] = l
+    assert _start_ok(start), start
+    return sc
+
+
 def _directed():
     """Fixed scenarios: the repaired defects and the boundary shapes named in the property."""
     out = []
@@ -843,6 +1054,26 @@ def _directed():
                             {"op": "view", "name": "w", "xid": {"mode": "free", "arg": 0}, "num": {"mode": "free", "arg": 1}},
                             {"op": "view", "name": "x", "h": 2}, {"op": "save", "fmt": "xmi"}, {"op": "reload", "fmt": "json"},
                             {"op": "view", "name": "y"}]})
+    # the data of a sofa is a byte array which is an FS of the CAS as well (member of a view / referenced by a member /
+    # shared by two sofas): one object, one id, written once; ids generated afterwards avoid it; it can get a fresh id
+    for fmt in ("xmi", "json"):
+        for form in (("list", "dict") if fmt == "json" else ("list",)):
+            for perm in (1, 2):
+                st = {"kind": "doc", "fmt": fmt, "form": form, "perm": perm,
+                      "sofas": [{"id": 1, "num": 1, "name": INIT}, {"id": 8, "num": 3, "name": "v1"}, {"id": 4, "num": 2, "name": "v2"}],
+                      "fs": [{"l": 6, "id": 2, "member": INIT, "ref": None, "kind": "B", "arr": [INIT, "v2"]},
+                             {"l": 1, "id": 3, "member": INIT, "ref": 7},
+                             {"l": 7, "id": 9, "member": None, "ref": None, "kind": "B", "arr": ["v1"]},
+                             {"l": 2, "id": 5, "member": "v1", "ref": 6}]}
+                out.append({"start": st,
+                            "ops": [{"op": "save", "fmt": fmt}, {"op": "new", "l": 11}, {"op": "add", "l": 11, "keep": None, "view": INIT},
+                                    {"op": "view", "name": "w"}, {"op": "add", "l": 7, "keep": None, "view": "w", "h": 2},
+                                    {"op": "save", "fmt": "json" if fmt == "xmi" else "xmi"}, {"op": "link", "p": 1, "c": 2},
+                                    {"op": "add", "l": 6, "keep": False, "view": "v2"}, {"op": "reload", "fmt": fmt},
+                                    {"op": "new", "l": 12}, {"op": "add", "l": 12, "keep": None, "view": "v2"},
+                                    {"op": "force", "l": 12, "mode": "as", "arg": 7}, {"op": "save", "fmt": "json"},
+                                    {"op": "add", "l": 12, "keep": False, "view": "v1"}, {"op": "reload", "fmt": "json"},
+                                    {"op": "save", "fmt": "xmi"}]})
     # repaired: documents without an _InitialView sofa, FS id 1 / sofaNum 1 in the document (941f890)
     for fmt in ("xmi", "json"):
         out.append({"start": {"kind": "doc", "fmt": fmt, "form": "list", "perm": 2, "sofas": [{"id": 5, "num": 1, "name": "v1"}],
@@ -866,7 +1097,7 @@ def generate(rng, tier):
         yield from _directed()
     n = {"quick": 1100, "thorough": 12000, "search": 6000}[tier]
     for _ in range(n):
-        yield gen_scenario(rng, tier)
+        yield _with_arrays(gen_scenario(rng, tier))
 
 
 # ------------------------------------------------------------------------------------------------ misc interface
@@ -894,14 +1125,19 @@ def shrink_candidates(sc):
             for f in c["start"]["fs"]:
                 if f["ref"] == gone:
                     f["ref"] = None
-            yield c
+            if _start_ok(c["start"]):
+                yield c
         for i in range(len(st["sofas"])):
             if len(st["sofas"]) > 1:
                 c = json.loads(json.dumps(sc))
                 gone = c["start"]["sofas"].pop(i)["name"]
                 if any(f["member"] == gone for f in c["start"]["fs"]):
                     continue
-                yield c
+                for f in c["start"]["fs"]:
+                    if gone in f.get("arr", []):
+                        f["arr"].remove(gone)
+                if _start_ok(c["start"]):
+                    yield c
 
 
 def mutate(sc, rng):
@@ -936,6 +1172,10 @@ def distribution(scenarios, observations):
                                          max([0] + [f["id"] for f in s["start"]["fs"]])),
             "initial_view_sofanum_not_1": sum(1 for s in docs if any(x["name"] == INIT and x["num"] != 1 for x in s["start"]["sofas"])),
             "without_initial_view": sum(1 for s in docs if not any(x["name"] == INIT for x in s["start"]["sofas"])),
+            "documents_with_sofa_data_array": sum(1 for s in docs if any(f.get("arr") for f in s["start"]["fs"])),
+            "json_object_form_with_sofa_data_array": sum(1 for s in docs if s["start"].get("form") == "dict"
+                                                         and any(f.get("arr") for f in s["start"]["fs"])),
+            "data_array_shared_by_two_sofas": sum(1 for s in docs if any(len(f.get("arr", [])) > 1 for f in s["start"]["fs"])),
             "create_view_with_chosen_id": sum(1 for s in scenarios for o in s["ops"] if o["op"] == "view" and o.get("xid")),
             "create_view_with_chosen_sofanum": sum(1 for s in scenarios for o in s["ops"] if o["op"] == "view" and o.get("num")),
             "ops": kinds, "documents_written": written, "duplicate_errors": errs}
@@ -947,7 +1187,8 @@ MANIFEST = {
                   "with distinct ids and an _InitialView sofa, and for every traversal order, generated and loaded ids stay below "
                   "the generator, fresh ids are unused, sofaNums are unique, written documents carry pairwise distinct ids, loaded "
                   "ids are kept, and two reachable FS forced onto one id make serialising fail. The model is compared with /repo on "
-                  "every run (hand-written XMI/JSON documents, histories of <= 12 operations) inside Coq.",
+                  "every run (hand-written XMI/JSON documents, also with sofas whose data is a byte array that is an FS of the CAS as "
+                  "well, histories of <= 12 operations) inside Coq.",
     "level_note": "Trusted: Coq kernel + vm_compute; hand-written model coq/Ids.v; the harness computes the traversal order for "
                   "tie-free scenarios, the theorems hold for every order. Premises: the document has an _InitialView sofa; ids forced "
                   "from outside are below the generator and not a sofa id - both are needed (refuted without them, findings F1/F2).",
